@@ -6,11 +6,13 @@ Beyond the parser (`parse_body`, `walk`):
    run under `!c` (conds carry (kind, tokens, polarity, originating statement));
  * `truth` / `guards_truth`: three-valued evaluation of a C condition under concrete values of some identifiers
    (`cvflag = -3`), so that a test is recognised by what it decides, not by how it is spelt;
- * `inline_calls`: a bare call `helper(a, b);` of a void function defined in the same file is replaced by its body;
+ * `inline_calls`: a call `helper(a, b);` / `x = helper(a, b);` of a function defined in the same file is replaced by its body
+   under C++ parameter passing (by-value parameters the helper writes are fresh copies, reference / pointer parameters alias);
  * `copies`: the whole-array copies a statement performs (index loop, memcpy, std::copy, std::copy_n);
  * `Sym`: straight-line symbolic execution (scalars as C expressions over the values at the start, arrays as named
    values, branches decided by the concrete values) -- what a piece of code leaves in `dt`, `t0`, `ab` for a given flag;
- * `Fn`: positions and definitions of a function's locals (`expand` replaces a once-defined local by its definition).
+ * `Fn`: positions and definitions of a function's locals (`expand` replaces a once-defined local by its definition);
+ * `handler_entry_states`: the states in which a `catch` handler can be entered (one per statement of the try block that may throw).
 """
 from __future__ import annotations
 
@@ -754,8 +756,9 @@ def copies(st):
 
 # ------------------------------------------------------------------ helper functions defined in the same file
 
-def params_of(header: str):
-    """parameter names of `type name(type a, type *b, type c = 1)`"""
+def param_decls(header: str):
+    """parameters of `type name(type a, type *b, const T &c, type d = 1)`: [(name, kind, type tokens)] with kind
+    'value' (the callee works on a copy), 'ref' or 'ptr' (the callee works on the caller's object); None when not understood"""
     m = re.search(r"\(((?:[^()]|\([^()]*\))*)\)\s*(const)?\s*(:[^{};]*)?$", header.strip(), re.S)
     if not m:
         return None
@@ -766,41 +769,173 @@ def params_of(header: str):
     for piece in _top_split(tokenize(inner), (",",)):
         if "=" in piece:
             piece = piece[:piece.index("=")]
-        ids = [x for x in piece if IDENT.match(x)]
+        core = piece[:piece.index("[")] if "[" in piece else piece
+        ids = [j for j, x in enumerate(core) if IDENT.match(x)]
         if not ids:
             return None
-        out.append(ids[-1])
+        kind = "ref" if "&" in piece or "&&" in piece else "ptr" if "*" in piece or "[" in piece else "value"
+        out.append((core[ids[-1]], kind, core[:ids[-1]]))
     return out
 
 
-def inline_calls(st, helpers, depth=0):
-    """helpers: {name: (params, parsed body)} of void functions.  An expression statement that is exactly `name(args);` becomes
-    the helper's body with the parameters replaced by the arguments (extracted code is still this code)."""
+def params_of(header: str):
+    """parameter names of `type name(type a, type *b, type c = 1)`"""
+    d = param_decls(header)
+    return None if d is None else [x[0] for x in d]
+
+
+def sole_call(tokens):
+    """`Callee(args)` and nothing else -> (callee, [arg token lists]) else None"""
+    toks = list(tokens)
+    if len(toks) < 3 or not IDENT.match(toks[0]) or toks[1] != "(" or toks[-1] != ")":
+        return None
+    d = 0
+    for j, t in enumerate(toks[1:], 1):
+        d += t == "("
+        d -= t == ")"
+        if d == 0 and j < len(toks) - 1:
+            return None
+    return toks[0], ([a for a in _top_split(toks[2:-1], (",",))] if len(toks) > 3 else [])
+
+
+def declared_locals(body) -> set:
+    """names a function body declares (`T x = e;`, `T x;`, `T x[n];`, for-header declarations)"""
+    names = set()
+    for s, _ in walk(body):
+        parts = [s[1]] if s[0] == "expr" else [s[1]] if s[0] == "for" else []
+        for pt in parts:
+            for nm, op, rhs, decl in assignments(pt):
+                if decl and op == "=":
+                    names.add(nm)
+            core = pt[:pt.index("[")] if "[" in pt else pt
+            if len(core) >= 2 and all(IDENT.match(x) or x == "*" for x in core) and IDENT.match(core[-1]) and core[0] not in ("return", "delete", "goto", "new"):
+                names.add(core[-1])
+    return names
+
+
+def _idents(st) -> set:
+    out = set()
+    for s, _ in walk(st):
+        for pt in s[1:]:
+            if isinstance(pt, list) and (not pt or isinstance(pt[0], str)):
+                out.update(t for t in pt if IDENT.match(t))
+        if s[0] == "try":
+            for d, b in s[2]:
+                out.update(t for t in d if IDENT.match(t))
+    return out
+
+
+def inline_calls(st, helpers, depth=0, used=None):
+    """helpers: {name: (parameters, parsed body)} of functions defined in the same file, parameters either names or the
+    (name, kind, type) triples of `param_decls`.  A statement that is exactly `name(args);`, `x = name(args);` or
+    `T x = name(args);` becomes the helper's body (extracted code is still this code) under C++ parameter passing:
+      * a reference / pointer parameter IS the caller's object: the argument is written in its place;
+      * a by-value parameter the helper never writes is its argument; one it writes (assigns, hands out `&p`) is a fresh
+        local copy `T p__byval = arg;` -- what the helper does to it never reaches the caller's variable;
+      * the helper may `return e;` only as its last statement; the call's target then receives e.  When e is a local of the
+        helper (`int r = 0; ..; return r;`) that local is the target itself;
+      * other locals of the helper are renamed when the caller uses the same name.
+    Inlined statements are spliced into the enclosing block."""
+    if used is None:
+        used = _idents(st)
     k = st[0]
     if k == "block":
-        return ("block", [inline_calls(s, helpers, depth) for s in st[1]])
+        out = []
+        for s in st[1]:
+            r = inline_calls(s, helpers, depth, used)
+            if r is not s and s[0] == "expr" and r[0] == "block":
+                out.extend(r[1])
+            else:
+                out.append(r)
+        return ("block", out)
     if k == "if":
-        return ("if", st[1], inline_calls(st[2], helpers, depth), None if st[3] is None else inline_calls(st[3], helpers, depth))
+        return ("if", st[1], inline_calls(st[2], helpers, depth, used), None if st[3] is None else inline_calls(st[3], helpers, depth, used))
     if k == "for":
-        return ("for", st[1], st[2], st[3], inline_calls(st[4], helpers, depth))
+        return ("for", st[1], st[2], st[3], inline_calls(st[4], helpers, depth, used))
     if k in ("while", "dowhile"):
-        return (k, st[1], inline_calls(st[2], helpers, depth))
+        return (k, st[1], inline_calls(st[2], helpers, depth, used))
     if k == "try":
-        return ("try", inline_calls(st[1], helpers, depth), [(d, inline_calls(b, helpers, depth)) for d, b in st[2]])
-    if k == "expr" and len(st[1]) >= 3 and st[1][0] in helpers and st[1][1] == "(" and st[1][-1] == ")" and depth < 4:
-        params, body = helpers[st[1][0]]
-        args = [a for a in _top_split(st[1][2:-1], (",",)) if a] if len(st[1]) > 3 else []
-        inner_depth = 0
-        closed_early = False
-        for j, t in enumerate(st[1][1:-1]):
-            inner_depth += t == "("
-            inner_depth -= t == ")"
-            if inner_depth == 0 and j < len(st[1]) - 3:
-                closed_early = True
-        if len(args) == len(params) and not closed_early and not any(s[0] == "return" for s, _ in walk(body)):
-            m = {p: (a if len(a) == 1 else ["("] + a + [")"]) for p, a in zip(params, args)}
-            return inline_calls(_subst_stmt(body, m), helpers, depth + 1)
+        return ("try", inline_calls(st[1], helpers, depth, used), [(d, inline_calls(b, helpers, depth, used)) for d, b in st[2]])
+    if k == "expr" and len(st[1]) >= 3 and depth < 4:
+        toks = st[1]
+        target = None
+        call = sole_call(toks)
+        if call is None and "=" in toks:
+            i = toks.index("=")
+            if i and IDENT.match(toks[i - 1]):
+                call, target = sole_call(toks[i + 1:]), toks[:i]
+        if call and call[0] in helpers:
+            r = _inlined(call[0], call[1], target, helpers[call[0]], used)
+            if r is not None:
+                used |= _idents(r)
+                return inline_calls(r, helpers, depth + 1, used)
     return st
+
+
+def _inlined(callee, args, target, helper, used):
+    params, body = helper[0], helper[1]
+    if body[0] != "block" or len(args) != len(params) or any(not a for a in args):
+        return None
+    params = [p if isinstance(p, tuple) else (p, "subst", []) for p in params]
+    stmts = list(body[1])
+    rets = [s for s, _ in walk(body) if s[0] == "return"]
+    ret = None
+    if rets:
+        if len(rets) != 1 or not stmts or stmts[-1] is not rets[0]:
+            return None                     # leaves from the middle: not modelled
+        ret = list(rets[0][1])
+        stmts = stmts[:-1]
+    if target is not None and not ret:
+        return None
+    core = ("block", stmts)
+    W = written(core)
+    argids = {t for a in args for t in a if IDENT.match(t)}
+    taken = used | argids | _idents(body) | {p[0] for p in params}
+    m = {}
+    prelude = []
+
+    def fresh(base):
+        nm, n = base, 1
+        while nm in taken:
+            n += 1
+            nm = f"{base}{n}"
+        taken.add(nm)
+        return nm
+    for (p, kind, typ), a in zip(params, args):
+        if kind == "value" and p in W:
+            cp = fresh(p + "__byval")
+            prelude.append(("expr", list(typ) + [cp, "="] + list(a)))
+            m[p] = [cp]
+        else:
+            m[p] = list(a) if len(a) == 1 else ["("] + list(a) + [")"]
+    locs = declared_locals(core) - set(m)
+    simple = target is not None and not any(x in (".", "->", "[", "::", "*") for x in target)
+    elided = None
+    if ret and len(ret) == 1 and ret[0] in locs and simple:
+        v, L = target[-1], ret[0]
+        if v not in argids and (v == L or v not in _idents(core)):
+            elided = L
+            m[L] = [v]
+    for L in sorted(locs):
+        if L != elided and L in (used | argids):
+            m[L] = [fresh(f"{L}__{callee}")]
+    new = [_subst_stmt(s, m) for s in stmts]
+    if elided is not None:
+        v = target[-1]
+        # the declaration of the result local is the (first) assignment of the target
+        for j, s in enumerate(new):
+            if s[0] == "expr" and v in s[1] and (s[1][-1] == v or "=" in s[1] and s[1][s[1].index("=") - 1] == v):
+                i = s[1].index(v)
+                if i and all(IDENT.match(x) or x == "*" for x in s[1][:i]):
+                    new[j] = ("expr", (list(target[:-1]) if len(target) > 1 else []) + s[1][i:])
+                break
+    elif ret is not None:
+        r = _subst_tokens(ret, m)
+        if target is not None:
+            new.append(("expr", list(target) + ["="] + r))
+        elif "(" in r:
+            new.append(("expr", r))
+    return ("block", prelude + new)
 
 
 def _subst_tokens(tokens, m):
@@ -1032,6 +1167,52 @@ class Sym:
         if k in ("throw", "break", "continue"):
             return (k,)
         raise Unknown(f"statement kind {k}")
+
+
+NO_THROW_CALLS = NO_EFFECT_CALLS | {"sizeof", "static_cast", "reinterpret_cast", "const_cast", "log10", "log", "pow", "exp", "sqrt", "fabs", "abs", "min", "max", "fmin", "fmax"}
+
+
+def may_throw(st) -> bool:
+    """can executing `st` raise a C++ exception?  A `throw`, a `new`, or any call other than stdio / libm ones; assignments,
+    arithmetic and indexing of scalars cannot."""
+    for s, _ in walk(st):
+        if s[0] == "throw":
+            return True
+        for pt in ([s[1]] if s[0] in ("expr", "return", "if", "while", "dowhile") else [s[1], s[2], s[3]] if s[0] == "for" else []):
+            for j, t in enumerate(pt):
+                if t in ("new", "throw") or (IDENT.match(t) and j + 1 < len(pt) and pt[j + 1] == "(" and t not in NO_THROW_CALLS and t not in CAST_TYPES
+                                             and t not in ("if", "while", "for", "switch", "return")):
+                    return True
+    return False
+
+
+def handler_entry_states(sym, block):
+    """The states in which a handler of `try block` can be entered, `sym` being the state before the `try`: one per statement
+    of the block that may throw -- everything before it has run, the statement itself has not completed (the result of the
+    throwing call is not assigned; what it was handed by address, and what a compound statement writes, is unknown).
+    Statements after the last one that may throw never precede the handler (`try { run(); ok = true; } catch ..`).
+    -> [Sym]; raises Unknown when the block is not straight-line enough to be followed."""
+    states = []
+    cur = sym.clone()
+    cur.side_exits = []
+    for s in (block[1] if block[0] == "block" else [block]):
+        if may_throw(s):
+            e = cur.clone()
+            unknown = set()
+            if s[0] == "expr":
+                unknown = {nm for nm, op, rhs, decl in assignments(s[1]) if op == "&"} | {t for t in s[1] if t in e.a}
+            else:
+                unknown = written(s)
+            for nm in unknown:
+                if nm in e.a:
+                    e.a[nm] = e.opaque(nm)
+                else:
+                    e.s[nm] = e.opaque(nm)
+                    e.c.pop(nm, None)
+            states.append(e)
+        if cur.run(s) is not None:
+            break
+    return states
 
 
 def same_value(a: str, b: str):
